@@ -49,6 +49,8 @@ int vf_main(int argc, char **argv, const char *prop, void (*run)(void),
 typedef struct {
     uint64_t s[4];
 } vf_rng;
+void vf_tape_set(const uint8_t *p, size_t n); /* draws come from these bytes until used up (NULL: off) */
+void vf_finish(void);                         /* closing events, once */
 void vf_rng_seed(vf_rng *r, uint64_t seed);
 /* stream for (VERIF_SEED, shard, purpose) */
 void vf_rng_stream(vf_rng *r, uint64_t purpose);
